@@ -46,6 +46,15 @@ def returned_family(run):
             o = origin(mod, n.func)
             if o in TW:
                 out.add(o)
+            # a class looked up in a module-level table {..: IPv4Address, ..: IPv6Address}: every class the table holds
+            f = n.func
+            if isinstance(f, ast.Subscript) and isinstance(f.value, ast.Name):
+                for st in mod.tree.body:
+                    if isinstance(st, ast.Assign) and any(isinstance(t, ast.Name) and t.id == f.value.id for t in st.targets) and isinstance(st.value, ast.Dict):
+                        for v in st.value.values:
+                            o2 = origin(mod, v)
+                            if o2 in TW:
+                                out.add(o2)
     return out
 
 
